@@ -326,6 +326,15 @@ func (in *Inst) loopEnv(lp *Loop, st *State, phiVal func(*ssa.Phi) Val) *SpecEnv
 		if phi.Comment != "" {
 			env.vars[phi.Comment] = phiVal(phi)
 			env.phiNames[phi.Comment] = true
+			// atentry(x): the value the variable had when this loop was entered (merged over the entry edges) - for
+			// an inner loop a value of the current iteration of the enclosing loop, the same term in every
+			// obligation of the inner loop
+			if v, ok := lp.phiEntry[phi]; ok {
+				if v.Ty == nil {
+					v.Ty = phi.Type()
+				}
+				env.vars["@entry."+phi.Comment] = v
+			}
 		}
 	}
 	return env
